@@ -15,9 +15,12 @@ MANIFEST = {
             "largest maxHeightPrevoted, then the largest height, then a most frequent block ID; getHighestCommonBlock answers the "
             "requested ID lying highest on the responder's chain, independent of goroutine order, nothing for malformed requests; "
             "getBlocksFromID answers exactly the blocks following the ID on the own chain, ascending, consecutive, at most 103, for "
-            "all uint32 heights; offered heights are never below the finalized height (non-wrapping range); block sync and fast sync "
-            "over abstract chains: with an honest peer holding a better valid chain the node ends on that chain, a failing fast sync "
-            "restores the original blocks and bans the peer, no block at or below the finalized height is ever deleted. "
+            "all uint32 heights of chains whose tip is at most 2^32-2 (wf_chain; a tip of 2^32-1 is excluded); offered heights are never below the finalized height (non-wrapping range); block sync and fast sync "
+            "over abstract chains: with an honest peer holding a better valid chain the node ends on that chain (proved while finality does not move during "
+            "the sync; the moving-finality case is covered by the correspondence runs with Full:true and by "
+            "C19_failed_fast_sync_finality_moved_refuted), a failing fast sync "
+            "restores the original blocks and bans the peer (partial: while finality does not move; otherwise the peer is banned, the "
+            "temp blocks are cleared and the known finding c19:sync:restore-finalized applies), no block at or below the finalized height is ever deleted. "
             "Peer selection, helper arithmetic and the handlers are tied to the Go code by running both on all small multisets of "
             "peer tips / random peer sets and on random responder chains (cache sizes 1..515, removed blocks, heights near 2^32, "
             "malformed requests); every implementation answer is also checked against the declarative oracle.",
@@ -270,6 +273,16 @@ def run(ck):
     if r1 is None:
         return
     recs += r1
+    # floor (generated runs only): the "neither mechanism applies" branch of choose_sync must have been taken at least once
+    # (met by construction by the fixed scenario NonValidator + Recent: 4 validators, slot gap 11 <= 12, generator not a validator)
+    def method(r):
+        nv = r.get("nvals") or r["spec"]["n"]
+        if abs(r["ownh"] - r["blockh"]) <= 2 * nv and r.get("genisvalidator", True):
+            return "fast"
+        return "block" if 3 * nv < r["slotgap"] else "none"
+    ran = [r for r in r1 if r["k"] == "sync" and not r.get("fail") and not r.get("hang") and not r.get("panic")]
+    if ran and not any(method(r) == "none" for r in ran):
+        ck.fail_obligation("harness-setup", "no sync run took the 'neither mechanism applies' branch (shouldSync false, no fast sync)")
     evaluate(ck, recs)
     for r in [x for x in r1 if x["k"] == "sync"][1:2]:
         ck.sample(dict(r, links=r["links"][:4], peerchain=r["peerchain"][:6]))
